@@ -118,7 +118,7 @@ PLAIN_ATTRS = {
     'validation_level': ('int', '=='), 'name': ('str?', '=='), 'version': ('str', '=='), 'table': ('any', '=='),
     'long_name': ('str?', '=='), 'children': ('ElementList', 'is'), 'structure_by_name': ('dict[dict[any]]?', 'is'),
     'structure_by_longname': ('dict[dict[any]]?', 'is'), 'ordered_children': ('list[str]?', 'is'),
-    'repetitions': ('dict[tuple[int,int]]', 'is'),
+    'repetitions': ('dict[tuple[int,int]]', 'is'), 'child_classes': ('dict[any]', 'is'),
 }
 for _attr, (_ty, _op) in sorted(PLAIN_ATTRS.items()):
     for _cls in ('Element', 'Field'):
@@ -182,3 +182,32 @@ contract(
     properties=['C17', 'C18'],
     notes='frame not claimed (the attach step is C09/C10 territory); the constructor call is dynamic (assumed contract)',
 )
+
+
+# ---- Group / Segment constructors: the threading of Element.__init__ carried through the subclasses the parser builds
+_THREAD = [
+    ('version_threaded', 'self.version == (%s)' % _V),
+    ('level_threaded', 'self.validation_level == (%s)' % _L),
+    ('reference_threaded', 'implies(reference is not None and name is not None, refval_is(self.reference, reference))'),
+    ('detached', 'self._parent is None and self._traversal_parent is None'),
+]
+_CTOR_REQ = ['implies(reference is not None, ref_arity(reference) >= 2 and ref_arity(reference) <= 6)',
+             'parent is None and traversal_parent is None']
+_CTOR_SIG = {'name': 'str?', 'parent': 'Element?', 'reference': 'RefStruct?', 'version': 'str?',
+             'validation_level': 'int?', 'traversal_parent': 'Element?'}
+contract(
+    'hl7apy.core:Group.__init__',
+    sig=dict({'self': 'Group'}, **_CTOR_SIG),
+    returns='none',
+    requires=_CTOR_REQ + ['class_name_of(self) == "Group" or class_name_of(self) == "Message"'],
+    ensures=_THREAD + [('named_or_tolerant', 'self.name is not None or self.validation_level != 1')],
+    raises={'OperationNotAllowed': {'when': 'name is None'}, 'UnknownValidationLevel': {}, 'UnsupportedVersion': {},
+            'InvalidName': {'when': 'reference is None'}, 'KeyError': {}},
+    raises_only=['OperationNotAllowed', 'UnknownValidationLevel', 'UnsupportedVersion', 'InvalidName', 'KeyError'],
+    modifies=['self.*'], allocates=True,
+    properties=['C17', 'C18'],
+)
+
+# (Segment.__init__ is not under contract: after Element.__init__ it reads structure_by_name[last]['ref'][2], a subscript
+#  of a dynamically typed dict value; stating that every entry's 'ref' is a table record needs a quantified well-formedness
+#  predicate through the assumed _find_structure - left to the ground pass `constructible` and the bounded drivers)
